@@ -17,8 +17,11 @@ package verifharness
 
 import (
 	"context"
+	"encoding/json"
 	"fmt"
 	"io"
+	"os"
+	"os/exec"
 	"runtime"
 	"sort"
 	"strconv"
@@ -377,7 +380,13 @@ func (r *cwRig) do(a Step) []string {
 		r.setPending(k, true)
 		c, b := a.C, a.B
 		go func() {
-			err := cs.SendMsg(bv(payloadOf(b)))
+			var err error
+			if b < 0 {
+				// a message the codec rejects: Marshal fails before anything is written
+				err = cs.SendMsg("not a protobuf message")
+			} else {
+				err = cs.SendMsg(bv(payloadOf(b)))
+			}
 			r.ev(fmt.Sprintf("EvSendRet %d %s", c, optErr(err)))
 			r.setPending(k, false)
 		}()
@@ -1155,4 +1164,96 @@ func cwDeadlineTag(recs []cwStepRec) string {
 		}
 	}
 	return ""
+}
+
+// ---------------------------------------------------------------- sharding
+
+// cwSharded re-executes the test binary as n child processes (CW_SHARD=i/n); child i runs the scenarios whose index
+// is congruent to i. A child that leaves through the watchdog (exit code 3, record and end marker already written) or
+// dies is resumed after the scenario it was in; a death is recorded as a failing case of that scenario. The children's
+// output files are merged into -out. Returns (i, n, true) in a child and (0, 0, false) in the parent when all is done.
+func cwSharded(t *testing.T, testName string, n int) (int, int, bool) {
+	if s := os.Getenv("CW_SHARD"); s != "" {
+		var i, m int
+		fmt.Sscanf(s, "%d/%d", &i, &m)
+		return i, m, true
+	}
+	if *flagOut == "" || *flagOnly >= 0 {
+		return 0, 1, true
+	}
+	var wg sync.WaitGroup
+	outs := make([]string, n)
+	errs := make([]error, n)
+	for i := 0; i < n; i++ {
+		outs[i] = fmt.Sprintf("%s.shard%d", *flagOut, i)
+		os.Remove(outs[i])
+		wg.Add(1)
+		go func(i int) {
+			defer wg.Done()
+			from := *flagFrom
+			for attempt := 0; attempt < 400; attempt++ {
+				cmd := exec.Command(os.Args[0], "-test.run", "^"+testName+"$", "-test.timeout", "0", "-out", outs[i],
+					"-seed", fmt.Sprint(*flagSeed), "-tier", *flagTier, "-from", fmt.Sprint(from))
+				cmd.Env = append(os.Environ(), fmt.Sprintf("CW_SHARD=%d/%d", i, n))
+				out, err := cmd.CombinedOutput()
+				if err == nil {
+					return
+				}
+				lastBegin, lastEnd := -1, -1
+				if b, e := os.ReadFile(outs[i]); e == nil {
+					for _, line := range strings.Split(string(b), "\n") {
+						var m struct {
+							Marker string `json:"marker"`
+							Idx    int    `json:"idx"`
+						}
+						if strings.HasPrefix(line, `{"marker"`) && json.Unmarshal([]byte(line), &m) == nil {
+							if m.Marker == "begin" {
+								lastBegin = m.Idx
+							} else if m.Marker == "end" {
+								lastEnd = m.Idx
+							}
+						}
+					}
+				}
+				if lastBegin < from {
+					errs[i] = fmt.Errorf("shard %d: %v: %s", i, err, cwTail(string(out), 1500))
+					return
+				}
+				if lastBegin != lastEnd {
+					// the process died inside scenario lastBegin: a failing case of that scenario
+					f, _ := os.OpenFile(outs[i], os.O_WRONLY|os.O_APPEND, 0o644)
+					b, _ := json.Marshal(Rec{Idx: lastBegin, Kind: "process-died", Desc: cwTail(string(out), 1500),
+						Tags: []string{"process-died"}, Coq: "CwWedged ME2E [] [] [] []"})
+					fmt.Fprintf(f, "%s\n{\"marker\":\"end\",\"idx\":%d}\n", b, lastBegin)
+					f.Close()
+				}
+				from = lastBegin + 1
+			}
+		}(i)
+	}
+	wg.Wait()
+	f, err := os.OpenFile(*flagOut, os.O_CREATE|os.O_WRONLY|os.O_APPEND, 0o644)
+	if err != nil {
+		t.Fatal(err)
+	}
+	for i := 0; i < n; i++ {
+		if b, err := os.ReadFile(outs[i]); err == nil {
+			f.Write(b)
+		}
+		os.Remove(outs[i])
+	}
+	f.Close()
+	for _, e := range errs {
+		if e != nil {
+			t.Errorf("%v", e)
+		}
+	}
+	return 0, 0, false
+}
+
+func cwTail(s string, n int) string {
+	if len(s) > n {
+		return s[len(s)-n:]
+	}
+	return s
 }
